@@ -213,11 +213,12 @@ def changed_lines(base_hashes, path):
     return {i + 1 for i in range(len(cur)) if i not in same and cur[i] != blank}
 
 
-_INERT = re.compile(r"^\{?\s*(return\s*;?|continue\s*;?|unreachable!\s*\(.*\)\s*;?|panic!\s*\(.*\)\s*;?|debug_assert\w*!\s*\(.*\)\s*;?)\s*\}?\s*,?$", re.S)
+_INERT = re.compile(r"^\{?\s*(None|return\s*;?|continue\s*;?|unreachable!\s*\(.*\)\s*;?|panic!\s*\(.*\)\s*;?|debug_assert\w*!\s*\(.*\)\s*;?)\s*\}?\s*,?$", re.S)
 
 
 def inert(body):
-    """an arm with no computation of its own: the defensive `else { return; }` of a `let … else`, an `unreachable!()`, a
+    """an arm with no computation of its own: the defensive `else { return; }` of a `let … else`, a match arm that is just `None`
+    (C19-b4: `Operators::Fac => None` in a table function that is never asked about `!`), an `unreachable!()`, a
     `panic!(…)` for an impossible state.  Refactors add such arms routinely and nothing can execute them; they are listed in
     the evidence but do not make the reach leg report a violation (an arm that computes or returns a value does)."""
     return bool(_INERT.match(body.strip()))
